@@ -308,8 +308,16 @@ def run_case(case, res):
         r = run_one(call, nurls, ladder, faults)
         res.count('executions')
         res.count('requests', len(r['requests']))
-        urls_used = len({u for _t, u in r['requests']})
-        res.maxi('failovers', urls_used - 1 if nurls > 1 else 0)
+        # vacuity is judged on what the REFERENCE policy says this sequence needs, not on what
+        # the code under test happened to do
+        init_, mx_ = LADDERS[ladder]
+        retry_, fo_ = init_, 0
+        for _f in faults:
+            if retry_ == mx_ and nurls > 1:
+                fo_ += 1
+                retry_ = 0
+            retry_ = max(min(mx_, retry_ * 2), init_)
+        res.maxi('failovers', fo_)
         if len(faults) >= 1:
             res.count('with_faults')
         for what, detail in judge(call, nurls, ladder, faults, r)[:1]:
@@ -369,7 +377,7 @@ def run(tier, seed, started):
                  'x calls; plus long single- and two-fault runs (up to 14 faults) crossing two '
                  'fail-overs on the default ladder; non-trivial = at least one fault injected'),
         'http_requests_observed': c['requests'],
-        'max_failovers_in_one_call': c.get('max:failovers'),
+        'max_failovers_required_by_a_sequence': c.get('max:failovers'),
         'exhaustive': True,
         'bounds': {'tier': tier, 'cases': len(cases)},
     }
